@@ -81,7 +81,7 @@ def complete(fx: FX) -> bool:
 def _mk(ex, st, fx: FX) -> SV:
     """a string value carrying the view; X6: it is non-empty"""
     s = ex.fresh("fxs", z3.StringSort())
-    st.assume(z3.Length(s) > 0)
+    st.assume(z3.Length(s) > 0, axiom=True)
     return SV(mk_s(s), "str", {"fx": fx})
 
 
